@@ -193,7 +193,7 @@ def tables_level(res, wd, name, defs, plans, extra, stats):
                             plans=tla_val([{"n": n, "idx": set(idx)} for n, idx in plans])))
     with open(os.path.join(wd, mod + ".cfg"), "w") as f:
         f.write(CFG_T)
-    r = run_tlc(wd, mod, workers=8, timeout=1700, heap="6g")
+    r = run_tlc(wd, mod, workers=6, timeout=1700, heap="6g")
     tlc_ok(r, mod)
     cf = os.path.join(wd, mod + ".cases.ndjson")
     extract_prints(r["out"], "CASE", cf)
@@ -405,7 +405,7 @@ def family(tier):
 def run_time(res, tier, rng, wd):
     jobs_random, witness_jobs = [], []
     for name, inst, params, kbd in family(tier):
-        r = mc.check_instance(inst, wd, workers=8, timeout=1500)
+        r = mc.check_instance(inst, wd, workers=6, timeout=1500)
         res.add_instance(r)
         log("[c12] instance %s: %d states, %d edges replayed, drift %d, monitor errors %d, panics %d, tlc %.0fs" %
             (name, r["states"], r.get("replayed", 0), r.get("drift", 0), r["n_monerr"], r["n_panic"], r["tlc_wall_s"]))
@@ -558,7 +558,7 @@ def typing_histories(res, tier, rng, wd):
         f.write(MC_H % dict(mod=mod, tables=tla_val(ent)))
     with open(os.path.join(wd, mod + ".cfg"), "w") as f:
         f.write(CFG_T)
-    r = run_tlc(wd, mod, workers=8, timeout=1700, heap="6g")
+    r = run_tlc(wd, mod, workers=6, timeout=1700, heap="6g")
     tlc_ok(r, mod)
     hf = os.path.join(wd, mod + ".hist.ndjson")
     n = extract_prints(r["out"], "HIST", hf)
